@@ -74,7 +74,7 @@ def gen(rng, i, cancels=True):
         pol = {"kind": "custom", "decisions": dec}
     jobs = []
     for _ in range(n):
-        script = [rng.choice(["V", "E", "E", "E", "F"]) for _ in range(rng.choice([1, 2, 3, 4]))]
+        script = [rng.choice(["V", "E", "E", "E", "F", "B"]) for _ in range(rng.choice([1, 2, 3, 4]))]
         jb = {"script": script, "S": rng.choice([0, 0, 100]), "C": rng.random() < 0.5, "cb": rng.random() < 0.5}
         if cancels and rng.random() < 0.5:
             jb["K"] = rng.choice([0, 150, 300, 300, 350, 400, 401, 700])
@@ -96,6 +96,10 @@ def gen(rng, i, cancels=True):
     fl = ["manual", "pool", "manual", "sync"][i % 4]
     if any(jb.get("percall") for jb in jobs) and fl == "sync":
         fl = "manual"
+    if fl == "sync" and any("B" in jb["script"] for jb in jobs):
+        # a BaseException-only outcome over a synchronous delegate propagates out of submit() like out of a direct
+        # call (SyncExecutor mirrors `except Exception`): only delegates that record such outcomes are in scope
+        fl = "pool"
     return {"flavour": fl, "policy": pol, "jobs": jobs, "dur": 300, "horizon": 4000, "workers": rng.choice([1, 2, 3])}
 
 
